@@ -272,17 +272,46 @@ def r14_4(ctx, R):
             ctx.ob("R14.4", b, "mark-all-loop-only-over-occupied-slots@%s" % _site_label(b, sbb), ok, b.loc(sbb), det)
     ctx.floor("R14.4", "mark-all-loops", m, 1)
     import c02
+    before = len(ctx.obs)
     c02.r2_2(ctx, R)
+    # a slot-map method that vacates wholesale (through REMOVE or by writing the free variant itself) is judged at ITS callers by
+    # R14.5 (they must empty the ready queue): for this property that is the question, not who called REMOVE
+    bulk = {v.path for v in R.bulk_vacate_fns}
+    ctx.obs = ctx.obs[:before] + [o for o in ctx.obs[before:] if str(o.fn) not in bulk]
     ctx.rule("R2.2", "see C02 R2.2 (shared): slots are vacated only by callers of the drain (which has just dequeued that slot's entry) "
-                     "-- a bulk clear would leave stale entries queued, and every 61 of them cost a self-wake")
+                     "-- or wholesale by a function that empties the ready queue itself (R14.5)")
     import c07
     c07.r7_6(ctx, R)
     ctx.rule("R7.6", "see C07 R7.6 (shared): the slot map's FromIterator builds a full map")
 
 
+def r14_5(ctx, R):
+    ctx.rule("R14.5", "vacating slots in bulk: the drain vacates a slot only after that slot's queue entry was dequeued (C02 R2.2), so "
+                      "the ready queue never holds entries of vacant slots beyond late wakes. A function that vacates slots wholesale "
+                      "through a slot-map method other than REMOVE (`clear`, `retain` ...) leaves the entries of those slots queued: "
+                      "each one is dequeued later, finds no child, consumes one unit of the per-poll budget, and an exhausted budget "
+                      "self-wakes the task -- polls that wake the task although no child waker was invoked. Such a function must empty "
+                      "the ready queue itself (it reaches POP), or consume the collection")
+    pops = {p.path for p in R.pop_fns}
+    n = 0
+    for v in R.bulk_vacate_fns:
+        for f, ss in R.callers_of(v):
+            if f.path.startswith(R.slot_enum[1]):
+                continue          # another slot-map method: judged at its own callers
+            n += 1
+            reaches_pop = any((fn_name(fn) or "") in pops or
+                              (callee_body(ctx.facts, fn) is not None and any((fn_name(f2) or "") in pops for _, _, f2 in callee_body(ctx.facts, fn).calls() if f2))
+                              for _, _, fn in f.calls() if fn)
+            by_value = bool(f.arg_count) and not (f.locals[1] or "").startswith("&") and "Pin<" not in (f.locals[1] or "")
+            ctx.ob("R14.5", f, "bulk-vacate-empties-the-ready-queue@%s" % _site_label(f, ss[0][0]), reaches_pop or by_value, f.loc(ss[0][0]),
+                   "%s vacates slots wholesale; the function dequeues the ready queue: %s; consumes the collection: %s" % (v.path.split("::")[-1], reaches_pop, by_value))
+    ctx.ob("R14.5", "<crate>", "bulk vacating call sites examined", True, "", "%d" % n)
+
+
 def run(ctx):
     R = roles(ctx)
     R.pop_fn, R.drain_fn, R.mark_fn
+    r14_5(ctx, R)
     r14_1(ctx, R)
     r14_2(ctx, R)
     r14_3(ctx, R)
